@@ -233,17 +233,14 @@ theorem gs_converges_of_contr {n : ℕ} {A : List (List α)} {b : List α} (h : 
     (hc : ContrL n A q) (atol : α) (hat : 0 < atol) (maxiter K : ℕ) (D0 : α)
     (hD0 : ∀ j, j < n → |vecFn (gsSweep A b (b.map (fun _ => (0:α)))) j| ≤ D0)
     (hK : q ^ K * D0 ≤ atol) (hmax : K + 2 ≤ maxiter) :
-    let s := gsSweeps A b atol maxiter (decide (atol < atol + atol)) (b.map (fun _ => (0:α)))
+    let s := gsSweeps A b atol maxiter true (b.map (fun _ => (0:α)))
     1 ≤ s ∧ s ≤ K + 1 ∧
     ∀ i, i < n → |GSFn.resid n (matFn A) (vecFn b) (vecFn (gaussSeidel A b atol maxiter)) i|
       ≤ atol * upSum n (matFn A) i := by
   intro s
-  have hcont : decide (atol < atol + atol) = true := by simp; linarith
   have hx0 : (b.map (fun _ => (0:α))).length = n := by simp [h.rhs]
   set x0 := b.map (fun _ => (0:α)) with hx0d
-  have hs_def : s = gsSweeps A b atol maxiter true x0 := by
-    show gsSweeps A b atol maxiter (decide (atol < atol + atol)) x0 = _
-    rw [hcont]
+  have hs_def : s = gsSweeps A b atol maxiter true x0 := rfl
   -- the (K+1)-th sweep moves nothing by more than atol
   have hstep : moved atol ((gsSweep A b)^[K+1] x0) ((gsSweep A b)^[K] x0) = false := by
     obtain ⟨hl1, hf1⟩ := iterate_gsSweep_fn h (K+1) x0 hx0
@@ -263,8 +260,8 @@ theorem gs_converges_of_contr {n : ℕ} {A : List (List α)} {b : List α} (h : 
   refine ⟨hge, hle, ?_⟩
   intro i hi
   -- stopped by tolerance: reuse the loop lemma
-  have hs_eq : gsSweeps A b atol maxiter (decide (atol < atol + atol)) x0 = s := rfl
-  obtain ⟨xp, hxp, hres, hmv⟩ := gsLoop_stopped h atol maxiter (decide (atol < atol + atol)) x0 hx0
+  have hs_eq : gsSweeps A b atol maxiter true x0 = s := rfl
+  obtain ⟨xp, hxp, hres, hmv⟩ := gsLoop_stopped h atol maxiter true x0 hx0
     (by rw [hs_eq]; exact hge) (by rw [hs_eq]; omega)
   unfold gaussSeidel
   rw [hres]
